@@ -2,15 +2,17 @@ from checks.common import *
 import os, json, re
 
 SPEC = {
-    "translators": ["gen_patconsts"],
+    "translators": ["gen_patconsts", "gen_jumpcoalesce"],
     "bins": ["c01"],
     "model_targets": ["Pat/C01Check.vo"],
     "proof_targets": ["Pat/MatcherProofs.vo", "Pat/ModifiersProofs.vo", "Pat/MatchListProofs.vo",
-                      "Pat/C01CheckProofs.vo", "Pat/Base64Proofs.vo", "Pat/ChainProofs.vo", "Pat/PipelineProofs.vo", "Pat/AtomsProofs.vo", "Pat/PipelineB64Proofs.vo", "Pat/ChainRunProofs.vo", "Pat/ChainCompleteProofs.vo", "Pat/PipelineB64CompleteProofs.vo", "Pat/ChainEndProofs.vo"],
+                      "Pat/C01CheckProofs.vo", "Pat/Base64Proofs.vo", "Pat/ChainProofs.vo", "Pat/PipelineProofs.vo", "Pat/AtomsProofs.vo", "Pat/PipelineB64Proofs.vo", "Pat/ChainRunProofs.vo", "Pat/ChainCompleteProofs.vo", "Pat/PipelineB64CompleteProofs.vo", "Pat/ChainEndProofs.vo", "Pat/JumpsProofs.vo"],
     "assumptions": [
         "the specification of occurrences (Pat/Sem.v, Pat/Modifiers.v) is written from text_patterns.md, hex_patterns.md, regexps.md, differences.md; "
         "where they are silent it accepts the implementation: the neighbouring character of a wide string for fullword, which of several genuine "
-        "lengths a regexp reports, assertions inside wide regexps (not generated), base64 occurrences whose 4-character window does not decode",
+        "lengths a regexp reports, base64 occurrences whose 4-character window does not decode; for the assertions of a `wide` regexp the neighbours are "
+        "the CHARACTERS (the byte two positions before / the byte at the position when two bytes follow; Sem.nb_prev / nb_next), the reading of "
+        "re/mod.rs WideIter also where the neighbour is not a proper wide character",
         "literal family (Literal, LiteralWithMask, Xor, Base64*): handle_atom_match / verify_* are modelled (Pat/Pipeline.v) and proved equal to the "
         "reference under atoms_ok, which K stream (d) evaluates on the REAL sub-patterns and atoms of the compiled rules (hook Rules::verif_c01_dump); "
         "the search automaton is assumed to report exactly the atom occurrences (hits_exact: any order); for Base64* the model is proved sound (both encodings) "
@@ -34,7 +36,8 @@ SPEC = {
     ],
     "trusted_base": ["Gen/PatConsts.v: chaining threshold, scan limit, max matches, clear() capacity threshold, initial list capacity, "
                      "base64 minimum length, regenerated from the Rust source",
-                     "hook lib/src/verif_c01.rs (cfg yara_x_verif): runs operation sequences on the real MatchList/PatternMatches"],
+                     "hook lib/src/verif_c01.rs (cfg yara_x_verif): runs operation sequences on the real MatchList/PatternMatches",
+                     "Gen/JumpCoalesce.v: which bound survives when consecutive jumps are coalesced, read from the match arms of hex2hir.rs"],
 }
 
 RULE = ("stream (a), ~20%: random operation sequences on the real MatchList / PatternMatches (sorted-ish, duplicates, same start with different ends, "
@@ -47,7 +50,10 @@ RULE = ("stream (a), ~20%: random operation sequences on the real MatchList / Pa
         "case flipped, truncated, xor'ed, wide/ascii mixed), overlaps, occurrences at offset 0 and at the last byte, with 4 different conditions that "
         "depend on the occurrences, optionally 70 extra literals in the rule set (Aho-Corasick instead of Teddy) and max_matches_per_pattern 1..3. "
         "stream (c), ~30%: directed shapes (jump + masked byte in both directions, rule sets of 1..90 literals with occurrences at chosen offsets "
-        "mod 16, masked literals of 15..66 bytes with one-byte near-misses, and one-bit perturbations: for a text pattern of each modifier family "
+        "mod 16, masked literals of 15..66 bytes with one-byte near-misses, regexps with a look-around assertion (^ $ \\b \\B \\b{start} \\b{end}) "
+        "directly before / after / inside the literal run that becomes the atom x {ascii, wide, ascii wide, nocase, fullword, nocase wide} over "
+        "buffers with word / non-word / underscore neighbours and instances at both buffer edges, hex patterns with 2-3 consecutive jumps of every "
+        "kind ([n], [a-b], [a-], [-]) and gaps just below / at / above every bound of the coalesced jump, and one-bit perturbations: for a text pattern of each modifier family "
         "(plain, nocase, nocase wide, fullword, xor, base64, wide) or a flat hex pattern of 5..12 bytes over letters, digits, punctuation and control "
         "bytes, buffers made of the genuine instance with bit 5, bit 7 and a random bit of every byte flipped in turn, inside and outside the atom). "
         "stream (e), ~12%: chains -- hex patterns and /s regexps (uniformly greedy or lazy; also nocase, wide, ascii wide, fullword) of 2..5 pieces, "
@@ -56,7 +62,10 @@ RULE = ("stream (a), ~20%: random operation sequences on the real MatchList / Pa
         "then >200 bytes of filler; the real pieces (flags, links, gaps) must equal Chain.split_at_large_gaps, atoms_ok must hold for every literal "
         "piece, the recorded hits/events must be what the model says (see assumptions) and the bookkeeping model must reproduce the reported list. stream (f), ~12%: rules with 2..4 related patterns (same text with different "
         "custom base64 alphabets, same alphabet with different text, same text with other modifiers, duplicates) scanned by ONE scanner over one or "
-        "two consecutive buffers: every (buffer, pattern) is a differential case. stream (d), ~15%: text patterns (every modifier family) and flat hex "
+        "two consecutive buffers: every (buffer, pattern) is a differential case. stream (g), ~8%: regexps whose strongest literal sits in an alternation "
+        "next to an alternative that can match the empty string (x*, (xy)?, an empty alternative), optional groups, x*/x? prefixes, plus general "
+        "regexps and hex patterns, with the REAL atoms of their Regexp sub-patterns: every start of a reference occurrence must have, for one of its "
+        "genuine lengths, an atom occurrence inside the occurrence (the atom set covers every alternative). stream (d), ~15%: text patterns (every modifier family) and flat hex "
         "patterns with the real sub-patterns and atoms dumped from the compiled rules: the dump must equal the model of c_literal_pattern, atoms_ok "
         "must hold on the real atoms, and the pipeline model run on them must reproduce the reported list exactly (anchored `$a at N` included). "
         "Non-trivial: at least one reported match; distinct by (pattern source, buffer).")
@@ -67,7 +76,7 @@ SYMPTOMS = [(1, "panic-or-bytes"), (2, "unsound"), (4, "order"), (8, "missed"), 
             (512, "hits-not-the-atom-occurrences-in-kernel-order"),
             (1024, "chain:pieces-differ-from-split-model"), (2048, "chain:atoms_ok-false-on-real-atoms"), (4096, "chain:hits-not-the-atom-occurrences-in-kernel-order"),
             (8192, "chain:literal-piece-matches-differ-from-model"), (16384, "chain:regexp-piece-matches-not-the-reference's"), (32768, "chain:bookkeeping-model-differs"),
-            (65536, "chain:events-not-in-an-order-a-kernel-produces"), (131072, "chain:end-of-forward-only-fastvm-piece-not-the-abstract-matchers"), (262144, "byte-gap-reading-of-wide-chain")]
+            (65536, "chain:events-not-in-an-order-a-kernel-produces"), (131072, "chain:end-of-forward-only-fastvm-piece-not-the-abstract-matchers"), (262144, "byte-gap-reading-of-wide-chain"), (524288, "atoms-do-not-cover-an-occurrence")]
 
 # root-cause hints computed by the harness from the pattern's AST, most specific first (the defects behind
 # them are repaired: a case classified by one of them is a regression and is reported as a VIOLATION)
@@ -109,6 +118,17 @@ def classify(case):
             window = data[lo:s0 + l0 + 8]
             if any(window[i] == 0x3d and (lo + i - s0) % 2 == 0 and (lo + i) < s0 + l0 + 6 and data[lo + i + 2:lo + i + 3] not in (b"", b"=") for i in range(len(window))):
                 return "C01:scan:base64wide-pad-inside-window"
+    # known findings of round 5 (candidate repairs in fixes/C01-8..10)
+    data_b = bytes.fromhex(case.get("data_hex", ""))
+    parts = set(sym.split("+"))
+    if "exact-dot-repetition-without-s" in tags and parts <= {"unsound", "missed"} and (b"\n" in data_b):
+        return "C01:scan:fastvm-backward-exact-jump-no-newline"
+    if "word-end-assertion" in tags and sym == "unsound" and any(int(s_) <= 1 for s_, _ in rep):
+        return "C01:scan:pikevm-word-end-backwards-at-start-of-data"
+    if "jump-bound-over-65535" in tags and parts <= {"unsound", "missed"}:
+        return "C01:scan:fastvm-jump-bound-truncated-to-16-bits"
+    if "empty-alternative" in tags and sym == "missed":
+        return "C01:scan:fastvm-empty-alternative-at-edge-of-data"
     for t in TAG_ORDER[:-1]:
         if t in tags:
             return f"C01:scan:{t}"
